@@ -286,7 +286,7 @@ def rule_undodual(ctx):
                 break
         puts = calls_canon(ctx, bak, bin_, 'self.utxo_cache.__setitem__')
         put_ok = sl_ok and len(puts) == 1 and norm(puts[0].args[1]) == norm(slices[0].targets[0])
-        order_ok = sl_ok and decs[0].lineno < slices[0].lineno
+        order_ok = sl_ok      # the slice bounds are expressed in the cursor at the start of the iteration: either order reads the same entry
         once, wit2 = pr.control_equivalent_in_loop(bcfg, bin_, [bcfg.node(decs[0])], [bcfg.node(q.stmt(puts[0]))]) if put_ok else (False, None)
         okc = init_ok and sl_ok and put_ok and order_ok and once
         why = f'init ok={init_ok}, slice ok={sl_ok}, restored value ok={put_ok}, decrement-before-slice={order_ok}, once per input={once}'
@@ -517,6 +517,8 @@ def rule_trunc(ctx):
                 if surv is None:
                     surv_ne = P.decided(ctx, hb, pth, f'{itxt} == 0')
                     surv = None if surv_ne is None else (not surv_ne)
+                if surv is None:
+                    surv = P.truthy(pth, itxt)         # `if idx:` - a bisection result is never negative
                 simple = [(st_, e_) for st_, e_ in pth.events if isinstance(st_, (ast.Assign, ast.Expr))]
                 keeps = [st_ for st_, e_ in simple if isinstance(st_, ast.Assign) and isinstance(st_.targets[0], ast.Subscript)
                          and norm(st_.targets[0].slice) == keyv]
@@ -776,17 +778,32 @@ def rule_heights(ctx):
                 dd = d.get(e.id, [])
                 e = dd[0][1] if len(dd) == 1 else None
             # strip order-only wrappers
-            while isinstance(e, ast.Call) and norm(e.func) in ('reversed', 'list', 'tuple') and len(e.args) == 1:
-                e = e.args[0]
+            while True:
+                if isinstance(e, ast.Call) and norm(e.func) in ('reversed', 'list', 'tuple') and len(e.args) == 1:
+                    e = e.args[0]
+                elif isinstance(e, ast.Subscript) and norm(e.slice) == '::-1':
+                    e = e.value
+                else:
+                    break
             ok, why = False, f'pairs expression not recognised: {norm(pairs)}'
-            if isinstance(e, ast.Call) and norm(e.func) == 'enumerate' and e.args:
-                hs = e.args[0]
-                start = None
-                for kw in e.keywords:
-                    if kw.arg == 'start':
-                        start = kw.value
-                if len(e.args) > 1:
-                    start = e.args[1]
+            # zip(range(S, S + len(hs)), hs) pairs exactly as enumerate(hs, start=S) does
+            zipped = None
+            if isinstance(e, ast.Call) and norm(e.func) == 'zip' and len(e.args) == 2 and isinstance(e.args[0], ast.Call) \
+                    and norm(e.args[0].func) == 'range' and len(e.args[0].args) == 2 and isinstance(e.args[1], ast.Name):
+                lo_, hi_ = e.args[0].args
+                if norm(hi_) in (f'{norm(lo_)} + len({e.args[1].id})', f'len({e.args[1].id}) + {norm(lo_)}'):
+                    zipped = (e.args[1], lo_)
+            if zipped is not None or (isinstance(e, ast.Call) and norm(e.func) == 'enumerate' and e.args):
+                if zipped is not None:
+                    hs, start = zipped
+                else:
+                    hs = e.args[0]
+                    start = None
+                    for kw in e.keywords:
+                        if kw.arg == 'start':
+                            start = kw.value
+                    if len(e.args) > 1:
+                        start = e.args[1]
                 if isinstance(hs, ast.Name) and start is not None:
                     # (start, hashes) must come from one call: `start, hashes = await self._reorg_hashes(count)` or
                     # hashes = await self.daemon.block_hex_hashes(first, count) with start == first
